@@ -42,6 +42,7 @@ From V Require Import Proto.IoCancelDefs.
 From V Require Import Calc.Calc2Defs.
 From V Require Import Proto.UringOpDefs.
 From V Require Import Proto.AtomicListDefs.
+From V Require Import Proto.FdOwnerDefs.
 Extraction Blacklist List String Int.
 Cd "../ocaml".
 Extraction "model.ml"
@@ -258,5 +259,7 @@ Extraction "model.ml"
   AtomicList.init
   AtomicList.quiescent
   AtomicList.chain_of
+  FdOwner.run_ops
+  FdOwner.field
   (*END*).
 Cd "../coq".
